@@ -31,7 +31,7 @@ AuxTokenOK(a) == a.token = (IF a.haspw THEN a.addr \o "|" \o Response(a.digest) 
 LoginOK(e) ==
     /\ ~e.pwonwire                                   \* the password itself never appears on the wire
     /\ e.panic = FALSE
-    /\ CASE e.cb \in {"none", "nil"} -> e.prcount = 0 /\ e.res # "nil"   \* no callback registered (never, or a nil one): the handshake fails
+    /\ CASE e.cb \in {"none", "nil", "setnil"} -> e.prcount = 0 /\ e.res # "nil"   \* no callback registered (never, a nil one, or one that was registered and then replaced by nil): the handshake fails
          [] e.cb = "error" -> e.prcount = 0 /\ e.res # "nil"          \* no password: no answer can be given
          [] OTHER ->
               /\ e.prcount = 1 /\ e.prBeforeCmd                       \* ;PR before the slave's first command
